@@ -108,16 +108,10 @@ def r1(R1, cfg, F):
         og = [x for x in b.calls() if x.callee and x.callee.best == 'once_cell::sync::OnceCell::<T>::get']
         oi = [x for x in b.calls() if x.callee and x.callee.best == 'once_cell::sync::OnceCell::<T>::get_or_try_init']
         if len(og) == 1:
-            sw = b.primary_switch(og[0].dest['l'])
-            some = b.variant_edge(sw, 1) if sw is not None else None
-            ok = some is not None and c.bb not in b.reachable([0], removed_edges=[(sw, some)])
+            ok = common.guarded_by_variant(b, c.bb, [['call@bb%d' % og[0].bb]], 1)
             why = 'get_unchecked must be reached only through the Some edge of once.get()'
         elif len(oi) == 1:
-            br = [x for x in b.calls() if x.callee and x.callee.defp == 'std::ops::Try::branch' and b.access_path(x.args[0]) == ['call@bb%d' % oi[0].bb]]
-            if len(br) == 1:
-                sw = b.primary_switch(br[0].dest['l'])
-                cont = b.variant_edge(sw, 0) if sw is not None else None
-                ok = cont is not None and c.bb not in b.reachable([0], removed_edges=[(sw, cont)])
+            ok = common.guarded_by_variant(b, c.bb, [['call@bb%d' % oi[0].bb]], 0)
             why = 'get_unchecked must be reached only after once.get_or_try_init returned Ok'
         else:
             why = 'get_unchecked is called where initialisation was not observed'
@@ -136,15 +130,11 @@ def r2(R2, cfg, F):
             R2.unrecognised(cfg, b.path, 'one call of the user initialiser and at least one overwrite of the state (found %d, %d)' % (len(f), len(writes)), b.loc())
             continue
         f = f[0]
-        br = [c for c in b.calls() if c.callee and c.callee.defp == 'std::ops::Try::branch' and b.access_path(c.args[0]) == ['call@bb%d' % f.bb]]
-        ok = len(br) == 1
-        why = 'the result of the initialiser is not checked with `?`'
+        ok = True
+        why = ''
         if ok:
-            sw = b.primary_switch(br[0].dest['l'])
-            cont = b.variant_edge(sw, 0) if sw is not None else None
-            ok = cont is not None
             for wbb, s in writes:
-                if wbb in b.reachable([0], removed_edges=[(sw, cont)]):
+                if not common.guarded_by_variant(b, wbb, [['call@bb%d' % f.bb]], 0):
                     ok = False
                     why = 'the state is overwritten on a path where the initialiser did not return Ok: a failed initialisation would lose the seed'
             # unwind edge of f reaches no write
@@ -165,8 +155,7 @@ def r2(R2, cfg, F):
                 if ok:
                     md = b.call_roots(st[0]['rv']['ops'][0])
                     ok = len(md) == 1 and md[0].callee.best == 'std::mem::ManuallyDrop::<T>::new'
-                    src = b.downcast_source(md[0].args[0]) if ok else None
-                    ok = ok and bool(src) and src[0] == br[0].dest['l'] and src[1] == 'Continue'
+                    ok = ok and common.deep_path(b, md[0].args[0]) == ['call@bb%d' % f.bb, 'as:Ok', '0']
                 why = 'the state must become State { init: ManuallyDrop::new(value returned by f) }'
         R2.check(ok, cfg, b.path, 'state-overwritten-only-after-Ok', why, f.loc())
 
